@@ -299,6 +299,13 @@ pub fn c02(cfg: &Config, tr: &Trace, an: &Analysis, out: &mut Vec<Violation>) {
 // ------------------------------------------------------------------------ C03
 
 pub fn c03(cfg: &Config, tr: &Trace, an: &Analysis, out: &mut Vec<Violation>) {
+    if let Some(Anomaly::EscapedPanic(p)) = tr.anomalies.iter().find(|a| matches!(a, Anomaly::EscapedPanic(_))) {
+        out.push(v(
+            "C03",
+            "run-finished",
+            format!("the stream is cut by an escaped panic ({p}): open brackets are never closed and there is no run-Finished"),
+        ));
+    }
     let evs: Vec<&Ev> = tr.events.iter().map(|e| &e.ev).collect();
     let pos_started: Vec<usize> =
         evs.iter().enumerate().filter(|(_, e)| ***e == Ev::Started).map(|(i, _)| i).collect();
@@ -1100,6 +1107,20 @@ pub fn c08(cfg: &Config, tr: &Trace, an: &Analysis, out: &mut Vec<Violation>) {
             ));
         }
     }
+    // whatever is dispatched after the final failure shows as a bracket opened after it:
+    // feature / rule brackets are opened when their first scenario is dispatched
+    if let Some(t) = an.first_final_failure {
+        if let Some(e) = tr.events[t + 1..]
+            .iter()
+            .find(|e| matches!(e.ev, Ev::FeatStarted(_) | Ev::RuleStarted(..)))
+        {
+            out.push(v(
+                "C08",
+                "bracket-opened-after-failure",
+                format!("{} was opened after the first final failure (event #{t}): something was dispatched after it", e.ev.short()),
+            ));
+        }
+    }
     // a failure that is retried (and no parser error) must not cut the run
     let any_err = an.delivered.iter().any(|i| matches!(cfg.items[*i], Item::Err(_)));
     if tr.ended && an.first_final_failure.is_none() && !any_err {
@@ -1492,6 +1513,30 @@ pub fn c10(cfg: &Config, tr: &Trace, an: &Analysis, out: &mut Vec<Violation>) {
                     if key.starts_with("before ") || key.starts_with("after ") { "hook" } else { "step (background steps as Background, scenario steps as Step)" }),
             ));
             break;
+        }
+    }
+    // "... the attempt still gets its after hook": a finished attempt with a failure has the
+    // after hook's events if an after hook is set
+    if cfg.after && tr.ended {
+        'outer: for sc in &an.scens {
+            for a in &sc.attempts {
+                if a.finished.is_some() && a.has_failure(tr) {
+                    let has_after = a.idxs.iter().any(|i| {
+                        matches!(
+                            tr.events[*i].ev.scenario().map(|x| x.2),
+                            Some(ScEv::Hook(crate::canon::HookKind::After, HookEv::Started))
+                        )
+                    });
+                    if !has_after {
+                        out.push(v(
+                            "C10",
+                            "after-hook-missing",
+                            format!("{}[{}] failed and finished without its after hook", sc.info.name, a.current),
+                        ));
+                        break 'outer;
+                    }
+                }
+            }
         }
     }
     // a panic in one scenario leaves the others unaffected: every other started attempt
